@@ -326,13 +326,18 @@ def run(ctx: lib.Ctx) -> None:
                       'repro': f"Key.from_mnemonic({' '.join(words)!r}, passphrase={pw!r}, email={email!r}, curve=b'{curve.decode()}')"}
                 ok1, k1 = lib.call(Key.from_mnemonic, ' '.join(words), passphrase=pw, email=email, curve=curve)
                 ok2, k2 = lib.call(Key.from_mnemonic, list(words), passphrase=pw, email=email, curve=curve)
-                if curve == b'BL' and not ok1 and not ok2 and k is None:
-                    ctx.dist['from_mnemonic:BL-seed>=r'] += 1      # the 32 seed bytes are not a BLS scalar: not a key of the curve
+                ref_se = ck.ref_mnemonic_secret(' '.join(words), pw, email)
+                if curve == b'BL' and not 0 < int.from_bytes(ref_se, 'little') < ck.BLS_R:
+                    # The first 32 seed bytes, read little-endian, are not a BLS12-381 scalar (>= group order r, about 55 % of all
+                    # mnemonics): py_ecc refuses them, so there is no key of the curve to speak about.  Outside C08's statement
+                    # ("every secret key of each curve"); determinism still demands that every call fails alike.
+                    ctx.dist['from_mnemonic:BL-seed-not-a-scalar'] += 1
+                    if ok1 or ok2 or k is not None:
+                        report('from_mnemonic built a BLS key from seed bytes that are not a scalar of the curve', rp)
                     continue
                 if not (ok1 and ok2 and k is not None and ck.key_tuple(k1) == ck.key_tuple(k2) == ck.key_tuple(k)):
                     report('from_mnemonic is not deterministic / fails on a valid mnemonic', rp)
                     continue
-                ref_se = ck.ref_mnemonic_secret(' '.join(words), pw, email)
                 ref_pub = ck.ref_public_point(curve, ref_se)
                 if ref_pub is not None and ref_pub != k1.public_point:
                     report('from_mnemonic differs from an independent derivation (PBKDF2-HMAC-SHA512 seed, first 32 bytes)', {**rp, 'observed': k1.public_point.hex(), 'independent': ref_pub.hex()})
